@@ -11,12 +11,12 @@
      that contains only the calls about k — goroutines working on different schemas cannot influence each other.
    * `search_sound` / `search_complete`: the linearization search the driver runs on recorded histories decides
      `Linearizable`.
-   * SetConfig(cfg) is Load, then Store of the merge: two atomic steps.  `store_fresh_is_atomic`: alone (nothing
-     between the two steps) it is the specified merge.  **Witness** `setconfig_lost_update`: two overlapping
-     SetConfig calls setting different fields — the second Store overwrites the first one's field with the stale
-     value it loaded; the recorded history has no linearization.  `cas_success_is_atomic` /
-     `cas_failure_no_effect`: with CompareAndSwap in place of Store (pending fix) the call takes effect in one
-     atomic step.
+   * SetConfig(cfg) is Load, then CompareAndSwap of the merge, retried until it succeeds (/repo d02a8cd):
+     `cas_success_is_atomic` / `cas_failure_no_effect` — the call takes effect in one atomic step, the successful
+     swap, so `atomic_linearizable` applies to it.  Legacy code (Load, then an unconditional Store):
+     `store_fresh_is_atomic` — alone it was the specified merge; **witness** `setconfig_lost_update` — two overlapping
+     calls setting different fields: the second Store overwrote the first one's field with the stale value it had
+     loaded; the history (recorded from the real code before the fix) has no linearization.
 -/
 import Gozod.Model.Conc
 
